@@ -337,6 +337,12 @@ pub fn c14(tier: &str) -> i32 {
     absorb_env(&mut out, &c, 2, 3, run_env::<2, 3>(&c), "market-env", true);
     let c = ecfg("MarketEnv<3,2>: three assets", true, &[1, 2, 3], 100, s - 1, 2, 0, &cl);
     absorb_env(&mut out, &c, 3, 2, run_env::<3, 2>(&c), "market-env", true);
+    // more instructions in the shared queue than the step size has time units
+    // (without the recorded-series clause: "traded volume of step j = trades stamped within step j"
+    // is only defined while the stamps of a step stay inside it)
+    let cl_nr = Clauses { sched: true, model: true, invisible: true, ..Default::default() };
+    let c = ecfg("MarketEnv<2,3>: step size 2 < shared batch", true, &[1, 2], 2, s - 1, 2, 0, &cl_nr);
+    absorb_env(&mut out, &c, 2, 3, run_env::<2, 3>(&c), "market-env", true);
     let c = ecfg("MarketEnv<1,3>: one asset", true, &[3], 100, s - 1, 2, 1, &cl);
     absorb_env(&mut out, &c, 1, 3, run_env::<1, 3>(&c), "market-env", true);
     let mut c = ecfg("MarketEnv<4,3>: four assets", true, &[1, 2, 3, 5], 100, 3, 2, 0, &cl);
